@@ -46,16 +46,19 @@ def vet(d, prop):
     return r.returncode, rules, und, r.stdout
 
 def cmd_new(prop, name, rel, expect):
-    old, new = sys.stdin.read().split("\n=====\n")
-    new = new.rstrip("\n")
-    old = old.rstrip("\n")
+    hunks = sys.stdin.read().split("\n#####\n")
     d = scratch()
     try:
         p = os.path.join(d, rel)
         s = open(p).read()
-        if s.count(old) != 1:
-            print("OLD text occurs %d times in %s" % (s.count(old), rel)); return 1
-        open(p, "w").write(s.replace(old, new))
+        for h in hunks:
+            old, new = h.split("\n=====\n")
+            new = new.rstrip("\n")
+            old = old.rstrip("\n")
+            if s.count(old) != 1:
+                print("OLD text occurs %d times in %s" % (s.count(old), rel)); return 1
+            s = s.replace(old, new)
+        open(p, "w").write(s)
         r = sh(["go", "build", "./..."], cwd=d, check=False)
         if r.returncode != 0:
             print("mutant does not compile:\n" + r.stdout); return 1
